@@ -133,7 +133,9 @@ impl World {
 
     /// a wtransport client endpoint on the simulated network (hook H1); every host name resolves to `server`
     pub fn wt_client_to(&self, cfg: ClientConfig, server: SocketAddr) -> Endpoint<Client> {
-        let mut q = quic_endpoint(&self.net, client_addr(), cfg.quic_endpoint_config().clone(), None, self.seed.wrapping_add(1));
+        // same address family as the server
+        let local = if server.is_ipv6() { "[fd00::2]:50000".parse().unwrap() } else { client_addr() };
+        let mut q = quic_endpoint(&self.net, local, cfg.quic_endpoint_config().clone(), None, self.seed.wrapping_add(1));
         q.set_default_client_config(cfg.quic_config().clone());
         Endpoint::<Client>::verif_from_quic(q, Arc::new(SimDns(server)))
     }
